@@ -510,6 +510,14 @@ def compare_run(run, owned):
             else:
                 tags = dump_diff_tags(r.impl, r.model, 'own' if r.client == last_client else 'other', pi, pm)
             prev[r.client] = (r.impl, r.model)
+        elif r.ws[0] == 'ev':
+            tags = [] if r.impl == r.model else ['conc.trace']
+        elif r.ws[0] == 'res':
+            ih, mh = parse_http_obs(r.impl), parse_http_obs(r.model)
+            same = ih is not None and mh is not None and all(ih.get(k) == mh.get(k) for k in ('status', 'vid', 'pvid', 'sr')) and blob_key(ih.get('body', '-') if ih.get('status') == 200 else '-') == blob_key(mh.get('body', '-') if mh.get('status') == 200 else '-')
+            tags = [] if same else ['conc.resp']
+        elif r.ws[0] in ('req', 'prefill', 'seq', 'illegal', 'fault'):
+            tags = []
         elif r.ws[0] == 'http':
             tags = http_field_diffs(r)
             opn = r.op if r.op in ('av', 'gcv', 'as', 'gs') else 'other'
